@@ -1,6 +1,7 @@
 package histlib
 
 import (
+	"database/sql"
 	"errors"
 	"fmt"
 	"io"
@@ -744,6 +745,8 @@ type FinalState struct {
 	HasSeq      bool
 	HasLock     bool
 	Tables      int
+	FreshDigest string // the same digest read through a connection opened after everything else finished (what any other process sees)
+	FreshErr    string
 	AppBusy     bool // an application statement failed with SQLITE_BUSY/locked (it lost a race for a lock): the run is not the same application history as one where it succeeded
 }
 
@@ -799,6 +802,14 @@ func RunFinal(h History) (FinalState, RunStats, error) {
 	if fs.Digest, err = UserDigest(e.App); err != nil {
 		return fs, st, err
 	}
+	if fresh, err := sql.Open("sqlite", "file:"+e.DBPath+"?_pragma=busy_timeout(2000)"); err == nil {
+		if d, err := UserDigest(fresh); err != nil {
+			fs.FreshErr = err.Error()
+		} else {
+			fs.FreshDigest = d
+		}
+		fresh.Close()
+	}
 	_ = e.App.QueryRow("PRAGMA integrity_check").Scan(&fs.Integrity)
 	_ = e.App.QueryRow("PRAGMA journal_mode").Scan(&fs.JournalMode)
 	var n int
@@ -819,7 +830,31 @@ func isBusyText(s string) bool {
 }
 
 // GenC14 generates deterministic application histories with litestream activity in between.
+// genOpenCloseUninitialised: litestream is opened and closed again without ever syncing (never
+// initialised) while the application stays connected — with the WAL just truncated to zero bytes by an
+// application checkpoint, or not — and the application keeps committing afterwards.
+func genOpenCloseUninitialised(r *hx.Rand) History {
+	ps := []int{512, 1024, 4096}[r.Intn(3)]
+	h := History{Cfg: Cfg{PageSize: ps, AutoVacuum: "none", MinCheckpointPageN: 1000, TruncatePageN: 0}}
+	h.Ops = append(h.Ops, genAppOp(r, ps), Op{K: "syncwait"}, Op{K: "down"})
+	if r.Chance(70) {
+		h.Ops = append(h.Ops, genAppOp(r, ps))
+	}
+	h.Ops = append(h.Ops, Op{K: "actl", S: []string{"TRUNCATE", "TRUNCATE", "RESTART", "PASSIVE"}[r.Intn(4)]})
+	h.Ops = append(h.Ops, Op{K: "up"}, Op{K: "down"})
+	for i, n := 0, 1+r.Intn(3); i < n; i++ {
+		h.Ops = append(h.Ops, genAppOp(r, ps))
+	}
+	if r.Chance(50) {
+		h.Ops = append(h.Ops, Op{K: "up"}, Op{K: "syncwait"})
+	}
+	return h
+}
+
 func GenC14(r *hx.Rand, thorough bool) History {
+	if r.Chance(8) {
+		return genOpenCloseUninitialised(r)
+	}
 	h := GenC01(r, thorough)
 	// also exercise stop/start and snapshots/compactions more often
 	var ops []Op
